@@ -90,6 +90,24 @@ def make(cls):
     return contract
 
 
+# ------------------------------------------------------------------------------------------------ caller side
+def physical_layer_wiring(c):
+    """USB3PhysicalLayer.elaborate() (real parent, open PIPE interface, every interface signal a free input; see
+    c31.PhysicalLayerUnits): where the two aligners sit in the receive chain.
+        PHY rx word -> CTCSkipRemover -> RxWordAligner -> (raw_source; Descrambler) -> RxPacketAligner -> source
+    The word aligner works on the SKP-free stream (so that 'no symbol lost or duplicated' is about the symbols the partner sent),
+    its output is what the descrambler and the raw tap get, the packet aligner works on the descrambled stream and its output
+    is the layer's source; alignment_offset is the word aligner's."""
+    from .c31_scrambling import PhysicalLayerUnits, lemmas_receive_chain_head, lemmas_descrambler_hookup, lemmas_receive_chain_tail
+    U = PhysicalLayerUnits(c)
+    lemmas_receive_chain_head(c, U)
+    lemmas_descrambler_hookup(c, U)
+    lemmas_receive_chain_tail(c, U)
+    c.lemma("layer_alignment_offset_is_the_word_aligners", U.S(U.d.alignment_offset, U.aligner.alignment_offset),
+            clause="observe at: alignment_offset (the layer's output is the RxWordAligner's, at its width)")
+
+
 def contracts(tier):
     yield ("RxWordAligner", "", make(RxWordAligner))
     yield ("RxPacketAligner", "", make(RxPacketAligner))
+    yield ("USB3PhysicalLayer", "wiring_alignment", physical_layer_wiring)
